@@ -706,4 +706,218 @@ theorem sshsig_example :
     validateSshsig E [1, 2] false blob [97, 99] none ⟨5, 1⟩ = .raises := by
   decide +kernel
 
+/-! ## 6. SSHSIG: the signer's certificate must be a user certificate (audit finding 5) -/
+
+/-- `cert.validate(t, principal)` does not raise: the `certValid` of `SigEnv` for the type `t` that
+    `validate_sshsig` passes (`Gen.C16.sshsigCertType`, read from the source) -/
+def certValidFor (t : Nat) (c : Cert) (p : List Nat) (now : Q) : Bool :=
+  (certValidate c t (some p) now).isNone
+
+theorem certValidFor_iff (t : Nat) (c : Cert) (p : List Nat) (now : Q) :
+    certValidFor t c p now = true ↔
+      (t = 0 ∨ t = c.ctype) ∧ c.validAfter * now.den ≤ now.num ∧ now.num < c.validBefore * now.den ∧
+      (c.principals = [] ∨ p ∈ c.principals) := by
+  unfold certValidFor
+  rw [Option.isNone_iff_eq_none, cert_validate_iff]
+  simp
+
+/-- **sshsig_cert_signer_is_user_certificate** ("its type matches the use").  When `validate_sshsig` validates
+    the signer's certificate as type `t ≠ 0` (the repaired code: `t = 1`, CERT_TYPE_USER), a True answer that is
+    not due to a plain-key entry for the signing key means the blob carries a certificate of exactly that type,
+    inside its validity window, which lists the principal or lists none. -/
+theorem sshsig_cert_signer_is_user_certificate (E : SigEnv) (t : Nat) (hE : E.certValid = certValidFor t)
+    (ht : t ≠ 0) (msg : Bytes) (isHashed : Bool) (sig : Bytes) (principal : List Nat)
+    (signers : Option (List Entry)) (now : Q)
+    (h : validateSshsig E msg isHashed sig principal signers now = .valid) :
+    ∃ es nsText key, signers = some es ∧
+      ((∃ e ∈ es, e.ca = false ∧ e.key = key ∧ e.matchOptions principal nsText now = some true) ∨
+       (∃ sb c, parseSigBlob E.magic E.version sig = some sb ∧ E.decodeCert sb.pub = .ok c ∧ c.ctype = t ∧
+          c.validAfter * now.den ≤ now.num ∧ now.num < c.validBefore * now.den ∧
+          (c.principals = [] ∨ principal ∈ c.principals))) := by
+  obtain ⟨sb, cert, key, nsText, toVerify, es, hsb, hwho, _, _, _, hes, hauth⟩ :=
+    sshsig_validate_sound E msg isHashed sig principal signers now h
+  refine ⟨es, nsText, key, hes, ?_⟩
+  cases hauth with
+  | byKey e hmem hca hkey hmatch => exact Or.inl ⟨e, hmem, hca, hkey, hmatch⟩
+  | byCa c caKey e hcert hck hmem hca hkey hmatch hvalid =>
+    right
+    rw [hE] at hvalid
+    obtain ⟨h1, h2, h3, h4⟩ := (certValidFor_iff t c principal now).mp hvalid
+    rcases hwho with ⟨c', hdc, hcc, _⟩ | ⟨_, hcn, _⟩
+    · rw [hcert] at hcc
+      simp only [Option.some.injEq] at hcc
+      subst hcc
+      refine ⟨sb, c, hsb, hdc, ?_, h2, h3, h4⟩
+      rcases h1 with h1 | h1
+      · exact absurd h1 ht
+      · exact h1.symm
+    · rw [hcert] at hcn; simp at hcn
+
+/-- a host certificate (type 2) for principal `a`, valid in [100, 200) -/
+def hostCertEx : Cert :=
+  { alg := [], keyAlg := [], keyFields := [], serial := 0, ctype := 2, keyId := [], principals := [[97]],
+    validAfter := 100, validBefore := 200, options := [], ca := [67, 65], blob := [], keyData := [7, 7] }
+
+def sshsigEnvEx (t : Nat) : SigEnv :=
+  { magic := strBytes "SSHSIG", version := 1, hashes := [(strBytes "sha512", 2)], hash := fun _ m => m.take 2,
+    decodeCert := fun _ => .ok hostCertEx, decodeKey := fun b => .ok b,
+    verify := fun k d s => s == k ++ d, certValid := certValidFor t }
+
+/-- **Behaviour before the repair (witness).**  With `cert.validate(CERT_TYPE_ANY, …)` (a16cedc) a message signed
+    with a HOST certificate of a CA listed as `cert-authority` validates; with CERT_TYPE_USER it does not.
+    Replayed on the real code by the oracle (signature `sshsig-accepts-host-certificate-signer`). -/
+theorem sshsig_host_cert_prefix_witness :
+    let ns := strBytes "file"
+    let toSign := signedData (strBytes "SSHSIG") ns (strBytes "sha512") [1, 2]
+    let blob := encodeSigBlob (strBytes "SSHSIG") 1 [9] ns (strBytes "sha512") ([7, 7] ++ toSign)
+    let es : List Entry := [{ principals := parsePatList [42], key := [67, 65], ca := true, namespaces := .absent,
+                              validAfter := none, validBefore := none }]
+    validateSshsig (sshsigEnvEx 0) [1, 2] false blob [97] (some es) ⟨150, 1⟩ = .valid ∧
+    validateSshsig (sshsigEnvEx 1) [1, 2] false blob [97] (some es) ⟨150, 1⟩ = .invalid ∧
+    validateSshsig (sshsigEnvEx 2) [1, 2] false blob [97] (some es) ⟨150, 1⟩ = .valid := by
+  decide +kernel
+
+/-- **Status of the current code** (type constant read from the source of `validate_sshsig`): the host
+    certificate above passes the certificate check of `validate_sshsig` iff the code still passes CERT_TYPE_ANY. -/
+theorem sshsig_cert_type_gen_status :
+    certValidFor sshsigCertType hostCertEx [97] ⟨150, 1⟩ = true ↔ sshsigCertType = 0 := by
+  decide +kernel
+
+/-- and when the code passes CERT_TYPE_USER, no certificate of another type passes it, whatever it lists -/
+theorem sshsig_gen_rejects_other_cert_types (h : sshsigCertType = 1) (c : Cert) (hc : c.ctype ≠ 1)
+    (p : List Nat) (now : Q) : certValidFor sshsigCertType c p now = false := by
+  cases hv : certValidFor sshsigCertType c p now with
+  | false => rfl
+  | true =>
+    obtain ⟨h1, _⟩ := (certValidFor_iff _ c p now).mp hv
+    rw [h] at h1
+    rcases h1 with h1 | h1
+    · simp at h1
+    · exact absurd h1.symm hc
+
+/-! ## 7. allowed-signers option names (audit findings 1 and 3) -/
+
+theorem lowerAscii_idem (s : List Nat) : lowerAscii (lowerAscii s) = lowerAscii s := by
+  unfold lowerAscii
+  rw [List.map_map]
+  apply List.map_congr_left
+  intro c _
+  simp only [Function.comp]
+  repeat' split
+  all_goals omega
+
+/-- **Option names are stored in lower case** (finding 1): whatever `_add_option` stores when names are
+    lower-cased is stored under a name that lower-casing leaves alone, so the exact-name lookups of
+    `namespaces`, `valid-after`, `valid-before` and `cert-authority` see an option however its letters were cased. -/
+theorem addOption_stores_lower (M : OptMode) (hl : M.lower = true) (opts res : List (List Nat × RawOpt))
+    (option : List Nat) (h : addOption M opts option = some res) :
+    ∃ name v, res = opts ++ [(name, v)] ∧ lowerAscii name = name := by
+  unfold addOption at h
+  split at h
+  · simp at h
+  · split at h
+    · dsimp only at h
+      split at h
+      · simp at h
+      · simp only [Option.some.injEq] at h
+        exact ⟨_, _, h.symm, by simp [OptMode.norm, hl, lowerAscii_idem]⟩
+    · dsimp only at h
+      split at h
+      · simp at h
+      · simp only [Option.some.injEq] at h
+        exact ⟨_, _, h.symm, by simp [OptMode.norm, hl, lowerAscii_idem]⟩
+
+/-- **A flag that is then given a value is refused** (finding 3) -/
+theorem addOption_flag_then_value (M : OptMode) (hs : M.flagThenValueRaises = true)
+    (opts : List (List Nat × RawOpt)) (option : List Nat) (hne : option.head? ≠ some 61)
+    (hv : option.contains 61 = true)
+    (hflag : opts.reverse.lookup (M.norm (option.takeWhile (· ≠ 61))) = some .flag) :
+    addOption M opts option = none := by
+  unfold addOption
+  split
+  · simp at hne
+  · simp_all
+
+/-- **A bare option that needs a value is refused** (finding 3): `namespaces`, `valid-after`, `valid-before` -/
+theorem addOption_bare_value_opt (M : OptMode) (hs : M.bareValueOptRaises = true)
+    (opts : List (List Nat × RawOpt)) (option : List Nat) (hv : option.contains 61 = false)
+    (hin : M.valueOpts.contains (M.norm option) = true) :
+    addOption M opts option = none := by
+  unfold addOption
+  split
+  · simp at hv
+  · simp_all
+
+def optModePreFix (valueOpts : List (List Nat)) : OptMode :=
+  { lower := false, flagThenValueRaises := false, bareValueOptRaises := false, valueOpts := valueOpts }
+
+/-- the parser with all switches off is the code before the repairs, up to the class of the exception -/
+theorem addOption_prefix_agrees (vo : List (List Nat)) (opts : List (List Nat × RawOpt)) (option : List Nat) :
+    addOption (optModePreFix vo) opts option =
+      match addOptionPreFix vo opts option with
+      | .ok o => some o
+      | _ => none := by
+  unfold addOption addOptionPreFix optModePreFix OptMode.norm
+  split
+  · rfl
+  · simp only [Bool.false_eq_true, if_false, false_or, false_and]
+    split
+    · split <;> rfl
+    · rfl
+
+def signerValueOptsSnapshot : List (List Nat) := [nm "namespaces", nm "valid-after", nm "valid-before"]
+def optModeFixed : OptMode :=
+  { lower := true, flagThenValueRaises := true, bareValueOptRaises := true, valueOpts := signerValueOptsSnapshot }
+
+/-- **Behaviour before the repair (witness, finding 3).**  `foo,foo=1` made `_add_option` call `append` on the
+    stored True (AttributeError, not ValueError); bare `namespaces` was stored as True and failed only when the
+    entry was matched.  The repaired parser answers ValueError to both.  Replayed on the real code by the oracle
+    (signature `allowed-signers-malformed-option-leaks-exception`). -/
+theorem addOption_prefix_witness :
+    addOptionPreFix signerValueOptsSnapshot [(nm "foo", .flag)] (nm "foo=1") = .crash ∧
+    addOption optModeFixed [(nm "foo", .flag)] (nm "foo=1") = none ∧
+    addOptionPreFix signerValueOptsSnapshot [] (nm "namespaces") = .ok [(nm "namespaces", .flag)] ∧
+    addOption optModeFixed [] (nm "namespaces") = none ∧
+    addOption optModeFixed [] (nm "Namespaces=git") = some [(nm "namespaces", .value (nm "git"))] ∧
+    addOptionPreFix signerValueOptsSnapshot [] (nm "Namespaces=git") = .ok [(nm "Namespaces", .value (nm "git"))] := by
+  decide +kernel
+
+/-- what an allowed-signers line restricts, as a Bool (for `decide`) -/
+def lineRestricts (M : OptMode) (line : String) (ns : NsOpt) (vb : Option Int) (ca : Bool) : Bool :=
+  match lineEntry M (fun s => if s = nm "KEY" then some [1] else none)
+          (fun v => if v = nm "5" then some 5 else none) (nm line) with
+  | .entry e => e.namespaces == ns && e.validBefore == vb && e.ca == ca
+  | _ => false
+
+/-- **Behaviour before the repair (witness, finding 1).**  `Namespaces="git"`, `Valid-Before=5` and
+    `Cert-Authority` written with capitals restricted nothing (the entry authorised every namespace, for ever,
+    as a plain key); the repaired parser reads them as the lower-case keywords.  Replayed on the real code by the
+    oracle (signature `sshsig-option-keyword-case-sensitive`). -/
+theorem option_case_prefix_witness :
+    lineRestricts (optModePreFix signerValueOptsSnapshot) "alice Namespaces=\"git\",Valid-Before=5,Cert-Authority KEY"
+      .absent none false = true ∧
+    lineRestricts optModeFixed "alice Namespaces=\"git\",Valid-Before=5,Cert-Authority KEY"
+      (.pats (parsePatList (nm "git"))) (some 5) true = true ∧
+    lineRestricts optModeFixed "alice namespaces=\"git\",valid-before=5,cert-authority KEY"
+      (.pats (parsePatList (nm "git"))) (some 5) true = true := by
+  decide +kernel
+
+/-- **Status of the current code** (switches probed on the live `OptionsParser`): the capitalised line is read
+    as a restriction iff the current parser lower-cases option names. -/
+theorem option_case_gen_status :
+    lineRestricts signerOptMode "alice Namespaces=\"git\",Valid-Before=5,Cert-Authority KEY"
+      (.pats (parsePatList (nm "git"))) (some 5) true = true ↔ signerOptMode.lower = true := by
+  decide +kernel
+
+/-- and the malformed forms of finding 3 make the current loader raise its ValueError (`.raises`) iff the current
+    parser has the two checks -/
+theorem option_strict_gen_status :
+    ((match lineEntry signerOptMode (fun s => if s = nm "KEY" then some [1] else none) (fun _ => none)
+              (nm "alice namespaces KEY") with | .raises => true | _ => false) = true ↔
+       signerOptMode.bareValueOptRaises = true) ∧
+    ((match lineEntry signerOptMode (fun s => if s = nm "KEY" then some [1] else none) (fun _ => none)
+              (nm "alice namespaces,namespaces=git KEY") with | .raises => true | _ => false) = true ↔
+       (signerOptMode.bareValueOptRaises = true ∨ signerOptMode.flagThenValueRaises = true)) := by
+  decide +kernel
+
 end AsyncsshModel.C16
